@@ -104,7 +104,7 @@ def gen_case(run_seed: int, index: int, tier: str) -> dict:
     # a real-valued signal carried in a complex tensor (BPSK symbols, real data cast to complex): imaginary part zero everywhere
     case["imag_zero"] = case["complex"] and rng.random() < 0.2
     if rng.random() < 0.15:  # the edges of the stated ranges
-        case["snr_db"], case["snr_db2"] = rng.choice([(-20.0, 40.0), (40.0, -20.0), (40.0, 39.0), (-20.0, -19.0)])
+        case["snr_db"], case["snr_db2"] = rng.choice([(-20.0, 40.0), (40.0, -20.0), (40.0, 39.0), (-20.0, -19.0), (0.0, 3.0), (0.0, -3.0), (3.0, 0.0), (-0.0, 10.0), (10.0, 20.0)])
         case["sig_power"] = rng.choice([1e-3, 1e3])
     if case["snr_as"] == "int":
         case["snr_db"] = float(round(case["snr_db"]))
